@@ -151,6 +151,11 @@ def run(ctx):
             if T and T[1] != "ERR:101":
                 ctx.fail("undersized-not-bufferfull", "on %r cap=%d < need %d the reader ended with %s instead of BufferFull" % (inp, cap, nd, T[1]), ["tr.slice\t%s" % hexs(inp), cases[k]], [smap[inp], t_impl[tbase + k]], "ERR:101")
     ctx.count("stream_cases", len(cases))
+    # >>> a_c07 (wave 4): remaining entry points, constructions, schedule families, atom kinds -- see audit/C07.md
+    import sys
+    from props import C07_more
+    C07_more.run(ctx, sys.modules[__name__])
+    # <<< a_c07
     shrink(ctx)
 
 
